@@ -18,6 +18,7 @@ def check(ctx):
         ctx.violation("runner problem: " + p, {"problem": p}, found_input=False)
     n = t2_bad = t3_bad = rejected = 0
     reported = set()
+    pending = {}
     for (a, b, x, aa, eh), (ar, br, xr, aar, ehr) in zip(run_d.records(True), run_r.records(True)):
         sid = a[:a.index("|")]
         if x is None:
@@ -54,13 +55,23 @@ def check(ctx):
             why, found = "entry points disagree: %s" % x[:300], True
         if why:
             t3_bad += 0 if not found else 1
-            if sid not in reported and len(reported) < 6:
-                reported.add(sid)
-                ctx.violation(why, dict(core.describe(envs, sid), form=form, input_hex=hx, a=ia, b=ib, impl=a, model=b), found_input=found)
+            # one report per shape, preferring a case that violates the property itself (a failing input) over the bare
+            # correspondence break
+            prev = pending.get(sid)
+            if prev is None or (found and not prev[1]):
+                if prev is not None or len(pending) < 24:
+                    pending[sid] = (why, found, dict(core.describe(envs, sid), form=form, input_hex=hx, a=ia, b=ib, impl=a, model=b))
         ctx.count("family=%s" % fam_of.get(sid.split(".")[0], ""))
         ctx.count("verdict=%s" % ("rejected" if f["FP"].startswith("fail") else "accepted"))
         if rejected % 4999 == 1 and len(ctx.samples) < 6 and f["FP"].startswith("fail"):
             ctx.samples.append({"case": a[:300]})
+    nf = sum(1 for v in pending.values() if v[1])
+    k = 0
+    for sid, (why, found, rep) in sorted(pending.items(), key=lambda kv: (not kv[1][1], kv[0])):
+        if k >= 6 or (not found and nf and k >= nf + 2):
+            break
+        k += 1
+        ctx.violation(why, rep, found_input=found)
     ctx.evaluations += n
     ctx.coverage.update({"t2_mismatches": t2_bad, "t3_failures": t3_bad, "rejected_inputs": rejected,
                          "traces_validated_against_impl": n - t2_bad, "exhaustive": True})
